@@ -78,6 +78,7 @@ impl Monitor for C18 {
             gen("direct", tier.pick(NCASE, NCASE, 96)),
             gen("rx", tier.pick(NCASE, NCASE, 96)),
             gen("adapter", tier.pick(NCASE_ADAPTER, NCASE_ADAPTER, 96)),
+            gen("mac-handoff", tier.pick(2 * 243, 2 * 243, 8)),
         ]
     }
     fn rule(&self) -> String {
@@ -97,7 +98,7 @@ impl Monitor for C18 {
         if tier == Tier::Sanitizer {
             vec!["ok", "err_oversize"]
         } else {
-            vec!["ok", "ok_wrap", "ok_zero_len", "ok_exact_fit", "err_oversize", "err_oversize_by_one", "hostile_status", "implicit_ok", "adapter_ok"]
+            vec!["ok", "ok_wrap", "ok_zero_len", "ok_exact_fit", "err_oversize", "err_oversize_by_one", "hostile_status", "implicit_ok", "adapter_ok", "mac_handoff_ok", "mac_handoff_exact_fit"]
         }
     }
     fn exhaustive(&self, tier: Tier) -> bool {
@@ -105,6 +106,10 @@ impl Monitor for C18 {
     }
 
     fn run_case(&self, g: &str, idx: u64, rng: &mut Prng, col: &mut Collector) {
+        if g == "mac-handoff" {
+            mac_handoff_case(idx, rng, col);
+            return;
+        }
         let offsets = if col.tier == Tier::Sanitizer { 4 } else { 256 };
         // under the sanitizer tier spread the few cases over the whole space
         let i = if col.tier == Tier::Sanitizer { idx.wrapping_mul(127) % NCASE } else { idx };
@@ -488,6 +493,131 @@ fn judge<C: Probe>(var: Var, case: &Case, shot: &Shot, r: &Result<Result<(Result
                         a.push(detail(json!({"error": e})));
                     }
                 }
+            }
+        }
+    }
+}
+
+
+// ---- the hand-off of a received packet into the MAC's buffer ---------------------------------------
+
+mod handoff {
+    use lorawan_device::async_device::radio::{PhyRxTx, RxConfig, RxQuality, RxStatus, Timer, TxConfig};
+
+    /// A radio that hands out one scripted packet in the first receive window.
+    pub struct OnePacket {
+        pub packet: Option<Vec<u8>>,
+        pub wrote: usize,
+    }
+    impl PhyRxTx for OnePacket {
+        type PhyError = ();
+        const MAX_RADIO_POWER: u8 = 20;
+        async fn tx(&mut self, _c: TxConfig, _b: &[u8]) -> Result<u32, ()> {
+            Ok(0)
+        }
+        async fn setup_rx(&mut self, _c: RxConfig) -> Result<(), ()> {
+            Ok(())
+        }
+        async fn rx_continuous(&mut self, _b: &mut [u8]) -> Result<(usize, RxQuality), ()> {
+            core::future::pending().await
+        }
+        async fn rx_single(&mut self, buf: &mut [u8]) -> Result<RxStatus, ()> {
+            match self.packet.take() {
+                Some(p) => {
+                    // (a packet longer than the MAC's buffer is the adapter's business to refuse)
+                    let n = p.len().min(buf.len());
+                    buf[..n].copy_from_slice(&p[..n]);
+                    self.wrote = n;
+                    Ok(RxStatus::Rx(n, RxQuality::new(-60, 7)))
+                }
+                None => Ok(RxStatus::RxTimeout),
+            }
+        }
+    }
+    impl lorawan_device::async_device::Timings for OnePacket {
+        fn get_rx_window_lead_time_ms(&self) -> u32 {
+            0
+        }
+    }
+    pub struct Now;
+    impl Timer for Now {
+        fn reset(&mut self) {}
+        async fn at(&mut self, _ms: u64) {}
+        async fn delay_ms(&mut self, _ms: u64) {}
+    }
+    pub struct Count(pub u32);
+    impl rand_core::RngCore for Count {
+        fn next_u32(&mut self) -> u32 {
+            self.0 = self.0.wrapping_add(0x9E37_79B9);
+            self.0
+        }
+        fn next_u64(&mut self) -> u64 {
+            self.next_u32() as u64
+        }
+        fn fill_bytes(&mut self, dest: &mut [u8]) {
+            for b in dest {
+                *b = self.next_u32() as u8;
+            }
+        }
+        fn try_fill_bytes(&mut self, dest: &mut [u8]) -> Result<(), rand_core::Error> {
+            self.fill_bytes(dest);
+            Ok(())
+        }
+    }
+}
+
+/// Last clause of the statement seen from the MAC's side: a received packet of every length that
+/// fits the MAC's radio buffer (sizes 255 and 256) reaches the MAC whole - an authentic downlink of
+/// that length is accepted and its payload delivered byte for byte.
+fn mac_handoff_case(idx: u64, rng: &mut Prng, col: &mut Collector) {
+    use lorawan_device::async_device::{Device, SendResponse};
+    use lorawan_device::region::{Configuration, Region, DR};
+    use lrv_core::refcodec::{encode_data, DataDesc};
+    let phy_len = 13 + (idx / 2) as usize % 243; // 13..=255
+    let small_buf = idx % 2 == 0;
+    let nwk: [u8; 16] = rng.arr();
+    let app: [u8; 16] = rng.arr();
+    let addr = rng.next_u32();
+    let payload = rng.bytes(phy_len - 13);
+    let d = DataDesc { mtype: 3, dev_addr: addr, adr: false, adr_ack_req: false, ack: false, f_pending: false, fcnt: 1, f_opts: vec![], f_port: Some(10), frm: payload.clone() };
+    let frame = encode_data(&d, &nwk, &app).expect("reference frame");
+    assert_eq!(frame.len(), phy_len);
+    macro_rules! go {
+        ($n:literal) => {{
+            let radio = handoff::OnePacket { packet: Some(frame.clone()), wrote: 0 };
+            let mut dev: Device<handoff::OnePacket, handoff::Now, handoff::Count, $n, 2> = Device::new(Configuration::new(Region::EU868), radio, handoff::Now, handoff::Count(rng.next_u32()));
+            let jm = lorawan_device::JoinMode::ABP { nwkskey: lorawan_device::NwkSKey::from(nwk), appskey: lorawan_device::AppSKey::from(app), devaddr: lorawan_device::DevAddr::from_value(addr) };
+            let r = trap(|| {
+                let _ = exec::run(dev.join(&jm), exec::POLL_BUDGET);
+                dev.set_datarate(DR::_5); // RX1 at SF7: 250 octets of MACPayload allowed
+                let resp = exec::run(dev.send(&[1], 1, false), exec::POLL_BUDGET).map(|x| x.0);
+                let got = dev.take_downlink().map(|d| (d.fport, d.data.to_vec()));
+                (resp.map(|r| matches!(r, Ok(SendResponse::DownlinkReceived(1)))), got)
+            });
+            (r, $n as usize)
+        }};
+    }
+    let (r, n) = if small_buf { go!(255) } else { go!(256) };
+    col.eval(&format!("mac-handoff|buf{}|len{}", n, if phy_len == 255 { "255".to_string() } else if phy_len == 254 { "254".into() } else { format!("{}x", phy_len / 32) }));
+    let detail = |obs: Value| json!({"mac_radio_buffer": n, "phy_payload_len": phy_len, "observed": obs});
+    match r {
+        Err(t) => col.violation(&format!("C18|mac-handoff|panic|buf{}|{}", n, t.file()), "handing a received packet to the MAC panicked", detail(json!({"panic": t.msg, "loc": t.loc}))),
+        Ok((Err(polls), _)) => {
+            col.event("no_return_within_poll_budget");
+            let _ = polls;
+        }
+        Ok((Ok(accepted), got)) => {
+            if accepted && got.as_ref().map(|g| g.0 == 10 && g.1 == payload).unwrap_or(false) {
+                col.event("mac_handoff_ok");
+                if phy_len == n.min(255) {
+                    col.event("mac_handoff_exact_fit");
+                }
+            } else {
+                col.violation(
+                    &format!("C18|mac-handoff|packet-not-handed-over-whole|buf{}|{}", n, if phy_len == n { "len=buf" } else if phy_len + 1 == n { "len=buf-1" } else { "len<buf" }),
+                    "a received packet that fits the MAC's radio buffer did not reach the MAC whole (an authentic downlink of that length was not accepted or its payload differs)",
+                    detail(json!({"accepted": accepted, "delivered_len": got.map(|g| g.1.len())})),
+                );
             }
         }
     }
